@@ -123,7 +123,20 @@ class _MathShim:
         return r
 
     def erfc(self, x):
-        return self._mono("erfc", x, False, True) if is_sym(x) else _math.erfc(x)
+        """float erfc UNDERFLOWS to 0.0 for large arguments, so the model is weaker than the real function:
+        non-negative, non-increasing, strictly decreasing wherever it is still positive (code that guards
+        `p <= 0` is therefore reachable, as it is with floats)"""
+        if not is_sym(x):
+            return _math.erfc(x)
+        USED.add("math.erfc: non-negative, non-increasing, strictly decreasing where positive (float underflow to 0 allowed; uninterpreted)")
+        f = _uf("math_erfc", z3.RealSort(), z3.RealSort())
+        c = _c()
+        if "mathax_erfc" not in c.names:
+            c.names["mathax_erfc"] = 1
+            a, b = z3.Reals("erfc_a erfc_b")
+            c.assume(z3.ForAll([a, b], z3.Implies(a < b, z3.And(f(a) >= f(b), z3.Implies(f(b) > 0, f(a) > f(b))))))
+            c.assume(z3.ForAll([a], f(a) >= 0))
+        return SymReal(f(_real(x)))
 
     def __getattr__(self, name):
         f = getattr(_math, name)
